@@ -278,6 +278,7 @@ def ledger_run(acc, cseed, alter, tmpdir):
             want[("Best block", 0)] = gd.best_block.hex()
             want[("Last transaction signed", 0)] = gd.last_tx.hex()
             want[("Platform", 0)] = "led"
+            want[("Timestamp", 0)] = str(int.from_bytes(gd.timestamp, "big"))
         for (lab, nth), w in want.items():
             acc.count("printed_values_compared")
             if printed(out, lab, nth) != w:
@@ -453,6 +454,7 @@ def sgx_run(acc, cseed, alter, tmpdir):
         q = gd.material.quote
         want = {"Hash": gd.keys_hash().hex(), "UD value": ud.hex32, "Best block": gd.best_block.hex(),
                 "Last transaction signed": gd.last_tx.hex(), "Platform": "sgx",
+                "Timestamp": str(int.from_bytes(gd.timestamp, "big")),
                 "Installed powHSM MRENCLAVE": q[48 + 64:48 + 96].hex(),
                 "Installed powHSM MRSIGNER": q[48 + 128:48 + 160].hex()}
         for lab, w in want.items():
